@@ -3,6 +3,8 @@ package potree
 import (
 	"bytes"
 	"encoding/binary"
+	"fmt"
+	"io"
 	"strconv"
 
 	"github.com/EliCDavis/polyform/math/geometry"
@@ -51,10 +53,17 @@ func ParseHierarchy(node *OctreeNode, buf []byte) error {
 	veiw := bytes.NewReader(buf)
 	numNodes := len(buf) / bytesPerNode
 
+	if numNodes == 0 {
+		return fmt.Errorf("hierarchy chunk of node %s holds no entry: %w", node.Name, io.ErrUnexpectedEOF)
+	}
+
 	nodes := make([]*OctreeNode, numNodes)
 	nodes[0] = node
 	nodePos := 1
 	for _, current := range nodes {
+		if current == nil {
+			return fmt.Errorf("hierarchy chunk of node %s holds entries no child mask accounts for", node.Name)
+		}
 		header := HierarchyNodeEntry{}
 		err := binary.Read(veiw, binary.LittleEndian, &header)
 		if err != nil {
@@ -106,6 +115,10 @@ func ParseHierarchy(node *OctreeNode, buf []byte) error {
 				Parent:      current,
 			}
 
+			if nodePos >= numNodes {
+				return fmt.Errorf("hierarchy chunk of node %s ends before the children of %s: %w", node.Name, current.Name, io.ErrUnexpectedEOF)
+			}
+
 			current.Children = append(current.Children, child)
 			nodes[nodePos] = child
 			nodePos++
@@ -118,7 +131,13 @@ func ParseHierarchy(node *OctreeNode, buf []byte) error {
 func ParseEntireHierarchy(root *OctreeNode, buf []byte) error {
 	if root.NodeType == 2 {
 		start := root.HierarchyByteOffset
-		scoped := buf[start : start+root.HierarchyByteSize]
+		end := start + root.HierarchyByteSize
+		// compare with len, not cap: slicing into the spare capacity of buf
+		// would decode zeros that are not in the file
+		if end < start || end > uint64(len(buf)) {
+			return fmt.Errorf("hierarchy chunk of node %s (bytes %d to %d) lies outside the %d bytes of hierarchy data: %w", root.Name, start, end, len(buf), io.ErrUnexpectedEOF)
+		}
+		scoped := buf[start:end]
 		if err := ParseHierarchy(root, scoped); err != nil {
 			return err
 		}
